@@ -338,6 +338,9 @@ def check(ctx):
         ba = [n for n, c2 in calls_named(gf, "build_accessors")]
         sctx.ob("I1", "SPA_COMPLETE::after-accessors", any(gf.dom(b, cn) for b in ba), f"{fi.qual}: CONNECTION_SPA_COMPLETE raised before the accessors are built", loc(fi, c))
         sg = [n for n in gf.stmt_nodes() if n.kind == "test" and n.suspends and "struct.get" in n.text()]
+        if not sg:
+            # `ok = await self.struct.get(...)` followed by `if not ok:` - the awaited transfer as a statement of its own
+            sg = [n for n in gf.stmt_nodes() if n.suspends and "struct.get" in n.text() and isinstance(n.ast, (ast.Assign, ast.AnnAssign, ast.Expr))]
         ok = bool(sg) and all(gf.dom(s, cn) for s in sg) and any(("await self.struct.get" in t or "self.struct.get" in t) and p for t, p in gf.guard_atoms(cn)) or \
             any("struct.get" in t and not p for t, p in gf.guard_atoms(cn))
         sctx.ob("I1", "SPA_COMPLETE::after-initial-block", bool(sg) and all(gf.dom(s, cn) for s in sg), f"{fi.qual}: CONNECTION_SPA_COMPLETE not dominated by the initial status-block transfer", loc(fi, c))
